@@ -156,3 +156,12 @@ func cmp16(x []byte, i int, y []byte, j int) int {
 //@ loop 0 decreases len(x)
 //@ at call utf8.DecodeRune#0 assert rx: rx == utf8Rune(old(x), len(old(x))-len(x)) && nx == utf8Len(old(x), len(old(x))-len(x)) && nx >= 2
 //@ at call utf8.DecodeRune#1 assert ry: ry == utf8Rune(old(y), len(old(y))-len(y)) && ny == utf8Len(old(y), len(old(y))-len(y)) && ny >= 2
+
+// Cmp16 / WfUTF8: cmp16 and wfUTF8From from offset 0, exported so that jsontext's
+// contracts can name them (this file is compiled only under the verif tag).
+//
+//@ spec Cmp16
+func Cmp16(x, y []byte) int { return cmp16(x, 0, y, 0) }
+
+//@ spec WfUTF8
+func WfUTF8(x []byte) bool { return wfUTF8From(x, 0) }
